@@ -1429,9 +1429,7 @@ class VectorImpl : public VectorDestr<T, Alloc, SizeType, WithInlineElements, Gr
     // append the elements one by one, then rotate them into place
     const SizeType idx = static_cast<SizeType>(position - this->begin());
     const SizeType oldSize = this->size();
-    for (; first != last; ++first) {
-      this->emplace_back(*first);
-    }
+    append_range(first, last, std::input_iterator_tag());
     std::rotate(this->begin() + idx, this->begin() + oldSize, end());
     return this->begin() + idx;
   }
@@ -1458,8 +1456,16 @@ class VectorImpl : public VectorDestr<T, Alloc, SizeType, WithInlineElements, Gr
 
   template <class InputIt>
   void append_range(InputIt first, InputIt last, std::input_iterator_tag) {
-    for (; first != last; ++first) {
-      this->emplace_back(*first);
+    const SizeType oldSize = this->size();
+    try {
+      for (; first != last; ++first) {
+        this->emplace_back(*first);
+      }
+    } catch (...) {
+      // the length of the range was not known in advance: remove the elements appended so far
+      amc::destroy_n(this->begin() + oldSize, this->size() - oldSize);
+      this->setSize(oldSize);
+      throw;
     }
   }
 
